@@ -222,6 +222,36 @@ def check_c06(tier: str) -> int:
                                               "trigger": {"buffer_hex": s.hex(), "checksum_hex": chk.hex()}})
             break
 
+    # ---- (a') the check bytes the SEND path writes: CRC over address .. payload, for any address bytes -----------
+    import dataclasses
+    import pyairtouch.comms.socket as psock
+    for gen in (4, 5):
+        rig = rxrig.RxRig(gen)
+        try:
+            reg = sockrun.registry(gen)
+            cat = [m for m, c in sockrun.catalogue(gen) if c == sockrun.ENC_OK]
+            for to, frm in [(0x80, 0xB0), (0x55, 0xB0), (0x55, 0x55), (0xAA, 0x55), (0x00, 0xFF), (0x90, 0xB0), (0xB0, 0x80)]:
+                for msg in (cat[0], cat[6]):
+                    ck.count()
+                    dist["send_path_check_bytes"] += 1
+                    if not rig.connect():
+                        break
+                    conn = rig.net.current()
+                    before = len(conn.out)
+                    enc = reg.get_encoder(msg.message_id)
+                    hdr = dataclasses.replace(reg.header_factory.create_from_message(msg, enc.size(msg)), to_address=to, from_address=frm)
+                    t = rig.loop.create_task(rig.sock.send_with_header(hdr, msg, psock.RETRY_NON_IDEMPOTENT))
+                    rig.loop.settle()
+                    data = bytes(conn.out[before:])
+                    frames, left = sockrun.split_frames(gen, data)
+                    ok = len(frames) == 1 and not left and frames[0][5] and frames[0][0] == to and frames[0][1] == frm
+                    if not ok:
+                        ck.violation("check bytes written by the send path are not CRC-16/MODBUS over address through payload", {
+                            "kind": "crc-send-path", "gen": gen, "to_address": to, "from_address": frm, "message": repr(msg)[:120],
+                            "written_hex": data.hex(), "trigger": {"class": "crc-send-path", "gen": gen, "to": to, "from": frm},
+                            "failure": f"reference reader: {[(f[0], f[1], f[2], f[3], f[5]) for f in frames]} (to, from, id, type, crc ok), left over {len(left)} bytes"})
+        finally:
+            rig.close()
     # ---- (b) corrupted frames through the real receive path ---------------------------------
     known_hits = Counter()
     for gen in (4, 5):
@@ -322,6 +352,26 @@ def check_c06(tier: str) -> int:
                 "delivered": [list(d) for d in ds], "trigger": {"class": "at4-length-field"}})
     finally:
         rig.close()
+    # the same construct on AirTouch 5: there the length is carried three times (two outer fields, one inner and
+    # covered by the check), so one flipped bit in the inner length of a frame that embeds a shorter valid frame
+    # is caught by the consistency of the three and must NOT be delivered
+    inner5 = sockrun.build_frame(5, 0xB0, 0x80, 7, 0x99, bytes.fromhex("01020304"))
+    outer5 = sockrun.build_frame(5, 0xB0, 0x80, 7, 0x99, inner5[20:])         # payload = inner payload + inner check bytes
+    for pos, bit, what in [(19, 0x02, "inner length 6 -> 4"), (9, 0x02, "second outer length"), (7, 0x02, "first outer length")]:
+        fl5 = bytearray(outer5)
+        fl5[pos] ^= bit
+        rig = rxrig.RxRig(5)
+        try:
+            rig.feed([bytes(fl5)])
+            ds, msgs, reset, unh = rig.take()
+            ck.count()
+            dist["at5_length_flip_constructs"] += 1
+            if ds:
+                ck.violation("an AirTouch 5 frame with one flipped length bit was delivered", {
+                    "kind": "corrupt-frame", "gen": 5, "frame_hex": outer5.hex(), "received_hex": bytes(fl5).hex(), "flipped": what,
+                    "delivered": [list(d) for d in ds], "trigger": {"class": "at5-length-field", "received_hex": bytes(fl5).hex()}})
+        finally:
+            rig.close()
     # the explicit straddle construct of C06_straddle_refuted (vendor document's example frame)
     rig = rxrig.RxRig(4)
     try:
@@ -379,6 +429,7 @@ def check_c13(tier: str) -> int:
             # keep streams short enough for the exhaustive 2-cut enumeration
             cand = sorted(lib, key=len)[: (6 if si % 2 == 0 else len(lib))]
             frs = [rxrig.with_pid(gen, rng.choice(cand), 1 + i) for i in range(3)]
+            frs[0] = rxrig.with_pid(gen, rng.choice(lib[-5:]), 1)      # one frame with unusual address bytes in every stream
             corrupted = si % 2 == 1
             if corrupted:
                 b = bytearray(frs[1])
